@@ -277,6 +277,22 @@ def showList (l : List Nat) : String := ",".intercalate (l.map toString)
 /-- `count <start> <stop> <kib> <threads> <mindist> cores=<n>` -/
 def countLine (op : String) : String :=
   match (op.splitOn " ").filter (· ≠ "") with
+  | ["count", a, b, _kib, t, md, cores, "nosqrt"] =>
+    -- hook H1b: threshold = the override alone; the pieces are those of the model, counted piece by piece
+    match a.toNat?, b.toNat?, t.toNat?, md.toNat?, kv cores with
+    | some start, some stop, some t, some md, some cores =>
+      let numThreads := inBetween 1 t cores
+      let ideal := if start > stop ∨ md = 0 then 1 else inBetween 1 ((stop - start) / md) numThreads
+      let td := if ideal > 1 ∧ start ≤ stop then getThreadDistance start stop ideal md else 0
+      let ps := if ideal > 1 ∧ start ≤ stop then pieces start stop td else []
+      let isP : Nat → Bool := if tableOk start stop then tableIsPrime start stop (segmentTable start stop) else isPrimeMR
+      let counts :=
+        if ideal > 1 ∧ start ≤ stop then
+          ps.foldl (fun acc p => List.zipWith (· + ·) acc (primeSieveCounts isP p.1 p.2 63)) (List.replicate 6 0)
+        else primeSieveCounts isP start stop 63
+      let pstr := ";".intercalate (ps.map (fun p => s!"{p.1}-{p.2}"))
+      s!"c={showList counts} ideal={ideal} td={td} pieces={pstr}"
+    | _, _, _, _, _ => "bad-op"
   | ["count", a, b, _kib, t, md, cores] =>
     match a.toNat?, b.toNat?, t.toNat?, md.toNat?, kv cores with
     | some start, some stop, some t, some md, some cores =>
